@@ -11,7 +11,7 @@ COQ_TARGETS = ['theories/Props/C07.vo', 'theories/Net/RelayCases.vo']
 IMPORTS = NC.net_imports()
 CASE_TYPE = 'net_case'
 CHECK_FN = 'check_net_case'
-ANCHOR_FILES = ['proxy/core/base/tcp_server.py', 'proxy/http/handler.py', 'proxy/core/connection/connection.py',
+ANCHOR_FILES = ['proxy/core/base/tcp_server.py', 'proxy/http/handler.py', 'proxy/core/connection/connection.py', 'proxy/core/base/tcp_tunnel.py',
                 'proxy/core/work/threadless.py']
 RULE = ('teardown scripts = event lists in which an exchange ends: upstream EOF / reset / timeout at a random position relative '
         'to the client drains, upstream send failure (broken pipe / OS error) with output pending, client EOF, error responses '
@@ -54,6 +54,16 @@ def generate(rng, tier):
                 c['up_plan'] = [x for x in c['up_plan'] if isinstance(x, (bytes, bytearray))] + ['timeout0']
                 c['ending'] = 'up-raise'
         cases.append(c)
+    # BaseTcpTunnelHandler (examples/https_connect_tunnel.py): the upstream closes while output is pending for a slow client
+    for i in range(24 if quick else 400):
+        c = NC.gen_relay(rng, profile='teardown', handler='tunnel', n_events=rng.choice([8, 12, 18]))
+        if c['ending'] not in ('up-eof', 'client-eof', 'none'):
+            c['up_plan'] = [x for x in c['up_plan'] if isinstance(x, (bytes, bytearray))] + ['eof']
+            c['ending'] = 'up-eof'
+            for ev in c['events']:
+                if ev.get('u_send') in ('pipe', 'oserror'):
+                    ev['u_send'] = 1
+        cases.append(c)
     return cases
 
 
@@ -95,6 +105,15 @@ def oracle(case, out):
             return 'step %d: teardown was pending since step %d and the client buffer is empty, but handle_events returned False' % (i, pending_since)
     if fin['res'] == 0:
         return None                       # the proxy has not ended the connection
+    if case.get('handler') == 'tunnel':
+        # BaseTcpTunnelHandler: exceptions escape by design (no try/except in the class) and a client-side end is
+        # answered by an immediate teardown in BaseTcpServerHandler; the client socket is closed by the executor
+        last = out['events'][len(steps) - 1] if steps else {}
+        client_end = steps and steps[-1]['c_taken'] and last.get('c_recv') in ('eof', 'reset', 'timeout', 'oserror')
+        if fin['res'] == 1 and not client_end and fin['cout'] != queued:
+            return ('tunnel handler closed the client connection with %d of %d queued bytes undelivered (upstream closed?)'
+                    % (len(queued) - len(fin['cout']), len(queued)))
+        return None
     threaded = bool(case.get('threaded'))
     if threaded:
         # shutdown()'s blocking flush: complete delivery whenever the scripted selector let the client keep reading
